@@ -171,7 +171,9 @@ func c07Run(c *mon.Ctx, idx int) {
 
 // exactness: keys that differ only in case, surrounding spaces or escapes
 var c07Exact = univ.IfaceMap(
-	"m", univ.IfaceMap("a", univ.Int(1), "A", univ.Int(2), " a", univ.Int(3), "a ", univ.Int(4), "a/b", univ.Int(5), "~", univ.Int(6), "~1", univ.Int(7), "a~b", univ.Int(8), "0", univ.Int(9), "00", univ.Int(10), "a.b", univ.Int(11), "é", univ.Int(12), "", univ.Int(13), "~0", univ.Int(14), "/", univ.Int(15), "~01", univ.Int(16)),
+	"m", univ.IfaceMap("a", univ.Int(1), "A", univ.Int(2), " a", univ.Int(3), "a ", univ.Int(4), "a/b", univ.Int(5), "~", univ.Int(6), "~1", univ.Int(7), "a~b", univ.Int(8), "0", univ.Int(9), "00", univ.Int(10), "a.b", univ.Int(11), "é", univ.Int(12), "", univ.Int(13), "~0", univ.Int(14), "/", univ.Int(15), "~01", univ.Int(16),
+		"e\u0301", univ.Int(17), "K", univ.Int(18), "\u212a", univ.Int(19), "k", univ.Int(20), "ß", univ.Int(21), "SS", univ.Int(22), "ss", univ.Int(23), "İ", univ.Int(24), "i", univ.Int(25), "I", univ.Int(26), "ı", univ.Int(27),
+		"ＡＢ", univ.Int(28), "AB", univ.Int(29), "a\u00a0", univ.Int(30), "\ufeffa", univ.Int(31), "a\u200b", univ.Int(32), "Ω", univ.Int(33), "\u2126", univ.Int(34)),
 	"l", univ.IfaceSlice(univ.Str("x"), univ.Str("y"), univ.IfaceMap("k", univ.Str("z"))),
 	"lm", univ.IfaceSlice(univ.IfaceMap("k", univ.Str("z")), univ.IfaceMap("k", univ.Str("w"))),
 	"S", univ.Struct(univ.StructOf(univ.Field{Name: "Name", Type: univ.TString}, univ.Field{Name: "F", Tag: `bexpr:"name"`, Type: univ.TString}), univ.Str("go"), univ.Str("tag")),
@@ -182,6 +184,9 @@ var c07FixedCases = []c06Case{
 	{`m[" a"] == 3`, "T"}, {`m["a "] == 4`, "T"}, {`m[" a"] == 1`, "F"}, {`m["a/b"] == 5`, "T"}, {`"/m/a~1b" == 5`, "T"}, {`"/m/~0" == 6`, "T"}, {`m["~"] == 6`, "T"}, {`"/m/~01" == 7`, "T"}, {`m["~1"] == 7`, "T"},
 	{`"/m/a~0b" == 8`, "T"}, {`m["a~b"] == 8`, "T"}, {`m.0 == 9`, "T"}, {`m["0"] == 9`, "T"}, {`"/m/0" == 9`, "T"}, {`m.00 == 10`, "T"}, {`m["00"] == 10`, "T"}, {`"/m/00" == 10`, "T"}, {`m["a.b"] == 11`, "T"}, {`"/m/a.b" == 11`, "T"},
 	{`m["é"] == 12`, "T"}, {`"/m/é" == 12`, "T"}, {`m[""] == 13`, "T"}, {`m["~0"] == 14`, "T"}, {`"/m/~00" == 14`, "T"}, {`m["/"] == 15`, "T"}, {`"/m/~1" == 15`, "T"}, {`m["~01"] == 16`, "T"}, {`"/m/~001" == 16`, "T"},
+	{`m["é"] == 17`, "F"}, {`m["e\u0301"] == 17`, "T"}, {`m.K == 18`, "T"}, {`m.k == 20`, "T"}, {`m["\u212a"] == 19`, "T"}, {"\"/m/\u212a\" == 19", "T"}, {`m["ß"] == 21`, "T"}, {`m.SS == 22`, "T"}, {`m.ss == 23`, "T"},
+	{`m["İ"] == 24`, "T"}, {`m.i == 25`, "T"}, {`m.I == 26`, "T"}, {`"/m/ı" == 27`, "T"}, {`m["ＡＢ"] == 28`, "T"}, {`m.AB == 29`, "T"}, {`m["a\u00a0"] == 30`, "T"}, {`m["\ufeffa"] == 31`, "T"}, {`m["a\u200b"] == 32`, "T"},
+	{`"/m/Ω" == 33`, "T"}, {"\"/m/\u2126\" == 34", "T"}, {`m["Ω"] == 34`, "F"}, {`m["k"] == 18`, "F"}, {`m["AB"] == 28`, "F"}, {`m["a"] == 30`, "F"},
 	{`l.0 == x`, "T"}, {`l["0"] == x`, "T"}, {`"/l/0" == x`, "T"}, {`l.2.k == z`, "T"}, {`l["2"]["k"] == z`, "T"}, {`"/l/2/k" == z`, "T"}, {`l.2["k"] == z`, "T"}, {"l[`2`].k == z", "T"},
 	{`S.Name == go`, "T"}, {`S.name == tag`, "T"}, {`S["name"] == tag`, "T"}, {`"/S/name" == tag`, "T"}, {`S.NAME == go`, "E"}, {`S.F == tag`, "E"}, {`S[" name"] == tag`, "E"},
 	{`any l.2 as k { k == k }`, "T"}, {`any "/l/2" as k { k == k }`, "T"}, {`any l["2"] as k { k == k }`, "T"}, {`any m as k, v { k == "~1" and v == 7 }`, "T"},
@@ -206,7 +211,7 @@ func c07Fixed(c *mon.Ctx, idx int) {
 func init() {
 	mon.Register(&mon.Prop{
 		ID: "C07", Level: "exploration",
-		Rule:        "per case a seeded document (or a fixed document whose keys differ only in case, surrounding spaces, '/', '~', '~1', leading zeros, empty key) and 3 datum-directed expressions (matches, connectives, quantifiers - selectors also as the quantified collection and inside bodies); each expression is re-spelled under 5 policies (all dotted, all [\"..\"], all [`..`], JSON Pointer with ~0/~1 escapes, random per-part mix) and each spelling goes through the real parser and Evaluate. oracle (relational): identical Path slices in the parsed trees and identical outcomes; plus 57 fixed exactness cases with outcomes taken from the statement. non-trivial = at least two textually different spellings existed; distinct by (first spelling, datum shape)",
+		Rule:        "per case a seeded document (or a fixed document whose keys differ only in case, surrounding spaces, '/', '~', '~1', leading zeros, empty key) and 3 datum-directed expressions (matches, connectives, quantifiers - selectors also as the quantified collection and inside bodies); each expression is re-spelled under 5 policies (all dotted, all [\"..\"], all [`..`], JSON Pointer with ~0/~1 escapes, random per-part mix) and each spelling goes through the real parser and Evaluate. oracle (relational): identical Path slices in the parsed trees and identical outcomes; plus 85 fixed exactness cases (case, spaces, escapes, leading zeros, Unicode look-alikes: composed vs decomposed, Kelvin sign, sharp s, dotted/dotless i, full-width letters, zero-width and no-break spaces) with outcomes taken from the statement. non-trivial = at least two textually different spellings existed; distinct by (first spelling, datum shape)",
 		Assumptions: []string{"a part is only re-spelled in a form that can express it (first part must be an identifier for the dotted/bracket syntax; pointer parts are restricted to the pointer character class)"},
 		NumCases:    func(tier string) int { return tierN(tier, 6000, 300000) },
 		Run:         c07Run,
